@@ -15,7 +15,7 @@ done
 export GOFLAGS=-mod=mod GOPROXY=off GOSUMDB=off GOTOOLCHAIN=local
 wt=/tmp/mt/$name
 rm -rf $wt; mkdir -p /tmp/mt
-git -C /repo worktree add -q --detach $wt HEAD || exit 2
+git -C /repo worktree add -q --detach $wt ${MUT_BASE:-HEAD} || exit 2
 cleanup() { git -C /repo worktree remove --force $wt 2>/dev/null; rm -rf $wt; }
 trap cleanup EXIT
 if [ -n "$demo" ]; then
@@ -26,7 +26,7 @@ if [ -n "$demo" ]; then
   tname=$(basename "$place")
   echo "== demo WITHOUT change:"; (cd $wt && go test -vet=off -count=1 -run '(?i)verifdemo' ${DEMOFLAGS:-} ./$pkg 2>&1 | tail -3)
 fi
-if ! git -C $wt apply "$patch"; then echo "PATCH DOES NOT APPLY"; exit 2; fi
+if ! git -C $wt apply "$patch" && ! git -C $wt apply -3 "$patch"; then echo "PATCH DOES NOT APPLY"; exit 2; fi
 if [ -n "$demo" ]; then
   echo "== demo WITH change:"; (cd $wt && go test -vet=off -count=1 -run '(?i)verifdemo' ${DEMOFLAGS:-} ./$pkg 2>&1 | tail -4)
   rm -f "$wt/$place"
